@@ -223,6 +223,40 @@ func init() {
 		"verifLockThread": func(e *Exec, t *Thread, a []Value, g bool) (Value, bool) {
 			return done(e.C.BVConst(64, uint64(e.sync(e.syncObj(a[0].(Iface).V.(Ptr))).acq[e.intArg(a[1])].tid)))
 		},
+		// ---- network environment: byte stream / datagram list consumed by the net stubs
+		"verifStream": func(e *Exec, t *Thread, a []Value, g bool) (Value, bool) {
+			sl := a[0].(Slice)
+			e.netStream = nil
+			for i := 0; i < sl.Len; i++ {
+				e.netStream = append(e.netStream, e.sliceElem(sl, i).(*term.T))
+			}
+			e.netCuts = int(e.intArg(a[1]))
+			e.netDribble = e.intArg(a[2]) == 1
+			return done(nil)
+		},
+		"verifDatagram": func(e *Exec, t *Thread, a []Value, g bool) (Value, bool) {
+			sl := a[0].(Slice)
+			var d []*term.T
+			for i := 0; i < sl.Len; i++ {
+				d = append(d, e.sliceElem(sl, i).(*term.T))
+			}
+			e.netDgrams = append(e.netDgrams, d)
+			return done(nil)
+		},
+		"verifNetWrites": func(e *Exec, t *Thread, a []Value, g bool) (Value, bool) {
+			return done(e.C.BVConst(64, uint64(len(e.netWrites))))
+		},
+		"verifNetWrite": func(e *Exec, t *Thread, a []Value, g bool) (Value, bool) {
+			w := e.netWrites[e.intArg(a[0])]
+			obj := e.newArrayObj(types.Typ[types.Uint8], len(w))
+			for i, b := range w {
+				obj.V.(*Array).E[i] = b
+			}
+			return done(Slice{Arr: obj, Len: len(w), Cap: len(w)})
+		},
+		"verifNetClosed": func(e *Exec, t *Thread, a []Value, g bool) (Value, bool) {
+			return done(e.C.BVConst(64, uint64(e.netClosed)))
+		},
 		"verifFail": func(e *Exec, t *Thread, a []Value, g bool) (Value, bool) {
 			panic(pathEnd{kind: "assert", detail: e.strArg(a[0]), site: e.callerPos(t)})
 		},
@@ -419,6 +453,39 @@ func init() {
 			return done(e.C.SExt(e.C.Extract(a[0].(*Struct).F[1].(*term.T), 31, 0), 64))
 		},
 
+		"(*net.TCPConn).Read": netRead,
+		"(*net.conn).Read":    netRead,
+		"(*net.UDPConn).ReadFromUDP": func(e *Exec, t *Thread, a []Value, g bool) (Value, bool) {
+			buf := a[1].(Slice)
+			if e.netClosed > 0 || len(e.netDgrams) == 0 {
+				return done(Tuple{e.C.BVConst(64, 0), Ptr{}, e.opaqueError("net: use of closed network connection")})
+			}
+			d := e.netDgrams[0]
+			e.netDgrams = e.netDgrams[1:]
+			n := len(d)
+			if n > buf.Len {
+				n = buf.Len
+			}
+			for i := 0; i < n; i++ {
+				e.storeElem(buf, i, d[i])
+			}
+			ua := e.World.Pkgs["net"].Type("UDPAddr").Type()
+			o := e.newObj(ua, e.zero(ua))
+			return done(Tuple{e.C.BVConst(64, uint64(n)), Ptr{Obj: o}, Iface{}})
+		},
+		"(*net.UDPConn).WriteToUDP": func(e *Exec, t *Thread, a []Value, g bool) (Value, bool) {
+			buf := a[1].(Slice)
+			var w []*term.T
+			for i := 0; i < buf.Len; i++ {
+				w = append(w, e.sliceElem(buf, i).(*term.T))
+			}
+			e.netWrites = append(e.netWrites, w)
+			return done(Tuple{e.C.BVConst(64, uint64(buf.Len)), Iface{}})
+		},
+		"(*net.UDPConn).Close": netClose,
+		"(*net.TCPConn).Close": netClose,
+		"(*net.conn).Close":    netClose,
+
 		"reflect.TypeOf": func(e *Exec, t *Thread, a []Value, g bool) (Value, bool) {
 			iv := a[0].(Iface)
 			if iv.T == nil {
@@ -484,6 +551,43 @@ func init() {
 		"strings.Clone":              func(e *Exec, t *Thread, a []Value, g bool) (Value, bool) { return done(a[0]) },
 		"internal/stringslite.Clone": func(e *Exec, t *Thread, a []Value, g bool) (Value, bool) { return done(a[0]) },
 	}
+}
+
+func netClose(e *Exec, t *Thread, a []Value, g bool) (Value, bool) {
+	e.netClosed++
+	return done(Iface{})
+}
+
+// netRead models Read on a stream socket: the peer's bytes arrive in arbitrary segments. With
+// a cut budget c, a Read returns either everything that is left or (if cuts remain) a
+// nondeterministically chosen shorter prefix; in dribble mode every Read returns one byte.
+func netRead(e *Exec, t *Thread, a []Value, g bool) (Value, bool) {
+	buf := a[1].(Slice)
+	if len(e.netStream) == 0 || e.netClosed > 0 {
+		eof := e.World.Pkgs["io"].Var("EOF")
+		return done(Tuple{e.C.BVConst(64, 0), e.load(Ptr{Obj: e.globalObj(eof)})})
+	}
+	max := len(e.netStream)
+	if buf.Len < max {
+		max = buf.Len
+	}
+	n := max
+	switch {
+	case e.netDribble:
+		n = 1
+	case e.netCuts > 0 && max > 1:
+		k := e.Choose(max, "segment") // 0: no cut, k: cut after k bytes
+		e.recordConcreteNondet("choice", int64(k))
+		if k > 0 {
+			n = k
+			e.netCuts--
+		}
+	}
+	for i := 0; i < n; i++ {
+		e.storeElem(buf, i, e.netStream[i])
+	}
+	e.netStream = e.netStream[n:]
+	return done(Tuple{e.C.BVConst(64, uint64(n)), Iface{}})
 }
 
 func (e *Exec) mentionsGarbage(t *term.T) bool {
